@@ -1,4 +1,4 @@
-CONSTANTS MaxGen = 1 DropStyledBlank = FALSE RowSkip = "forgets-hidden" Family = "mid" EmitReplay = FALSE
+CONSTANTS MaxGen = 1 DropStyledBlank = FALSE ColFold = "adjacent" RowSkip = "forgets-hidden" Family = "mid" EmitReplay = FALSE
 SPECIFICATION MCSpec
 VIEW View
 INVARIANTS OrigSim
